@@ -53,7 +53,7 @@ inline void World::step(Proc &p) {
   Alt chosen{0, ALT_NONE, 0};
   if (!alts.empty()) {
     uint8_t kinds[VK_MAXALT]; int n = 1; kinds[0] = 0;
-    for (auto &a : alts) { if (n >= VK_MAXALT) break; kinds[n++] = a.kind; }
+    for (auto &a : alts) { if (n >= VK_MAXALT) throw HarnessError{"too many alternatives at one call"}; kinds[n++] = a.kind; }
     int c = ex->choose(kinds, n);
     if (c > 0) chosen = alts[c - 1];
   }
@@ -74,6 +74,7 @@ inline void World::step(Proc &p) {
     exited = exec_op(p, st, out, aout, ret, err);
   }
   st.ret = ret; st.err = err;
+  if (st.data) { st.datacopy = *st.data; st.data = &st.datacopy; }   // p.req / out are overwritten before observers run
   trace_hash = fnv(trace_hash, &st.vpid, sizeof st.vpid); trace_hash = fnv(trace_hash, &st.op, sizeof st.op);
   trace_hash = fnv(trace_hash, &ret, sizeof ret); trace_hash = fnv(trace_hash, &err, sizeof err); trace_hash = fnvs(trace_hash, st.path);
   p.hist = fnv(p.hist, &st.op, sizeof st.op); p.hist = fnv(p.hist, &ret, sizeof ret); p.hist = fnvs(p.hist, out);
